@@ -1883,8 +1883,7 @@ Proof.
       rewrite Es, E6. apply in_or_app. left. apply in_or_app. right. left. reflexivity. }
     rewrite E6' in Hpos. lia. }
   destruct E1 as (El1 & Ea). clear R0. subst l1' l2' a'. assert (w' = c) by lia. subst w'. rewrite <- Es in R1.
-  rewrite R2, Hu2 in R1 |- *.
-  split; [assumption|]. split; [reflexivity|].
+  split; [assumption|]. split; [congruence|].
   assert (Hk' : kind (fst st') = SegNormal).
   { destruct R9 as (F1 & _). destruct Hfr2 as (G1 & _). congruence. }
   assert (Hent : forall j, j <= idx \/ idx + c - 1 <= j -> get (entries (fst st')) j = get (entries sg) j).
